@@ -467,6 +467,18 @@ class _Lookup:
     def __init__(self, net, which):
         self.net, self.which = net, which
 
+    def pyvc_getattr(self, interp, name):
+        if name == "get":
+            def get(it, a, k):
+                default = a[1] if len(a) > 1 else k.get("default")
+                present = self.pyvc_contains(it, a[0])
+                if cur().decide(T.lift(present), f"{self.which}.get: key present"):
+                    return self.pyvc_getitem(it, a[0])
+                return default
+
+            return Builtin(f"{self.which}.get", get)
+        raise Unsupported(f"{self.which}.{name} is not part of the ghost view")
+
     def pyvc_contains(self, interp, key):
         t = _as_ref(key, self.which)
         net = self.net
